@@ -93,9 +93,18 @@ pub fn alphabet(cs: u32) -> Vec<Op> {
 pub fn specs(tier: &str) -> Vec<ExpSpec> {
     let th = is_thorough(tier);
     let mut v = Vec::new();
-    for (ft, dq, dt) in [(FatType::Fat12, 4, 6), (FatType::Fat16, 4, 5), (FatType::Fat32, 4, 5)] {
+    for (ft, dq, dt) in [(FatType::Fat12, 4, 6), (FatType::Fat16, 3, 5), (FatType::Fat32, 3, 5)] {
         let cfg = vol::tiny_with(ft, 8, 16);
         v.push(ExpSpec::new(cfg, alphabet(512), if th { dt } else { dq }));
+    }
+    // geometry grid (sector 512..4096 x cluster 1..128 sectors x FAT12/16/32 x 1-2 FATs x small/large root), depth 2
+    for c in crate::c03::grid(th) {
+        let cs = {
+            let st = harness::dev::DevState::new(c.base.clone());
+            let b = st.read_vec(0, 512);
+            harness::decoder::parse_raw(&b).map(|g| g.cluster_size() as u32).unwrap_or(512)
+        };
+        v.push(ExpSpec::new(c, alphabet(cs), 2));
     }
     v
 }
